@@ -229,7 +229,7 @@ pub fn check(scn: &Scenario, stats: &mut Stats) -> Vec<Violation> {
                 out.push(Violation {
                     property: "C10".into(),
                     clause: "a:sequence-differs-across-schedules".into(),
-                    class: format!("a:{kind}:{}", kinds.join("+")),
+                    class: format!("a:{kind}:{}", kinds.iter().take(2).cloned().collect::<Vec<_>>().join("+")),
                     detail: format!(
                         "{chan}: entropy {e0} vs {e}: first difference at item {i}: {} vs {}",
                         d0.get(i).map_or("<none>".into(), NDiag::short),
@@ -258,7 +258,7 @@ pub fn check(scn: &Scenario, stats: &mut Stats) -> Vec<Violation> {
                     out.push(Violation {
                         property: "C10".into(),
                         clause: "a:sequence-differs-within-process".into(),
-                        class: format!("a2:{kind}:{}", kinds.join("+")),
+                        class: format!("a2:{kind}:{}", kinds.iter().take(2).cloned().collect::<Vec<_>>().join("+")),
                         detail: format!("entropy {e}: two runs on one thread differ"),
                         features: feats.clone(),
                     });
